@@ -417,8 +417,8 @@ Lemma quad_d_Dk s c e t n : (1 <= n)%Z ->
   quad_d NR s c e t n = DkR (quad_poly NR s c e) (Z.to_nat n) t.
 Proof. intros H. unfold quad_d. rewrite (quad_deriv_formal NR NumR_ok) by exact H. reflexivity. Qed.
 
-Lemma bezier_unit_tangent_singular poly t :
-  bezier_unit_tangent NR TR poly (0, 0) t = unit_tangent_fallback NR TR poly t.
+Lemma bezier_unit_tangent_singular poly hi t :
+  bezier_unit_tangent NR TR false poly (0, 0) hi t = unit_tangent_fallback NR TR poly t.
 Proof.
   unfold bezier_unit_tangent. rewrite cabs_R.
   assert (E : nrm (0, 0) = 0) by (apply nrm_zero_iff; reflexivity).
@@ -427,7 +427,7 @@ Qed.
 
 Lemma cubic_singular_k1 s c1 c2 e t0 :
   cubic_d NR s c1 c2 e t0 1 = (0, 0) -> cubic_d NR s c1 c2 e t0 2 <> (0, 0) ->
-  cubic_unit_tangent NR TR s c1 c2 e t0 = Val (principal_dir (cubic_d NR s c1 c2 e t0 2)).
+  cubic_unit_tangent NR TR false s c1 c2 e t0 = Val (principal_dir (cubic_d NR s c1 c2 e t0 2)).
 Proof.
   intros H1 H2. unfold cubic_unit_tangent. rewrite H1, bezier_unit_tangent_singular.
   rewrite cubic_d_Dk in H1, H2 |- * by lia. unfold cubic_poly in *.
@@ -436,7 +436,7 @@ Qed.
 Lemma cubic_singular_k2 s c1 c2 e t0 :
   cubic_d NR s c1 c2 e t0 1 = (0, 0) -> cubic_d NR s c1 c2 e t0 2 = (0, 0) ->
   cubic_d NR s c1 c2 e t0 3 <> (0, 0) ->
-  cubic_unit_tangent NR TR s c1 c2 e t0 = Val (principal_dir (cubic_d NR s c1 c2 e t0 3)).
+  cubic_unit_tangent NR TR false s c1 c2 e t0 = Val (principal_dir (cubic_d NR s c1 c2 e t0 3)).
 Proof.
   intros H1 H2 H3. unfold cubic_unit_tangent. rewrite H1, bezier_unit_tangent_singular.
   rewrite cubic_d_Dk in H1, H2, H3 |- * by lia. unfold cubic_poly in *.
@@ -444,11 +444,69 @@ Proof.
 Qed.
 Lemma quad_singular_k1 s c e t0 :
   quad_d NR s c e t0 1 = (0, 0) -> quad_d NR s c e t0 2 <> (0, 0) ->
-  quad_unit_tangent NR TR s c e t0 = Val (principal_dir (quad_d NR s c e t0 2)).
+  quad_unit_tangent NR TR false s c e t0 = Val (principal_dir (quad_d NR s c e t0 2)).
 Proof.
   intros H1 H2. unfold quad_unit_tangent. rewrite H1, bezier_unit_tangent_singular.
   rewrite quad_d_Dk in H1, H2 |- * by lia. unfold quad_poly in *.
   apply fallback_quad_k1; assumption.
+Qed.
+
+(* ---- the repaired fallback ---- *)
+Lemma ceqb_R_false z : z <> (0, 0) -> ceqb NR z (c0 NR) = false.
+Proof.
+  destruct z as [x y]. intros H. unfold ceqb, c0; cbn [re im fst snd eqb NumR zero].
+  unfold Req_b. destruct (Req_EM_T x 0) as [->|Hx]; [|reflexivity].
+  destruct (Req_EM_T y 0) as [->|Hy]; [contradiction|reflexivity].
+Qed.
+Lemma bezier_unit_tangent_singular_rep poly hi t :
+  bezier_unit_tangent NR TR true poly (0, 0) hi t = unit_tangent_fallback_repaired NR TR hi t.
+Proof.
+  unfold bezier_unit_tangent. rewrite cabs_R.
+  assert (E : nrm (0, 0) = 0) by (apply nrm_zero_iff; reflexivity).
+  rewrite E. change (zero NR) with 0. rewrite eqb_R_true. reflexivity.
+Qed.
+(* direction returned at a zero of the derivative: that of the first non-vanishing
+   higher derivative, negated for even n at t0 = 1 *)
+Definition travel_dir (t0 : R) (even_n : bool) (d : Cplx R) : Cplx R :=
+  if Req_b t0 1 && even_n then copp NR (unit_of NR TR d) else unit_of NR TR d.
+Lemma travel_dir_unit t0 ev d :
+  unit_of NR TR (if Req_b t0 1 && ev then copp NR d else d) = travel_dir t0 ev d.
+Proof. unfold travel_dir. destruct (Req_b t0 1 && ev); [apply unit_of_copp|reflexivity]. Qed.
+
+Lemma cubic_repaired_k1 s c1 c2 e t0 :
+  cubic_d NR s c1 c2 e t0 1 = (0, 0) -> cubic_d NR s c1 c2 e t0 2 <> (0, 0) ->
+  cubic_unit_tangent NR TR true s c1 c2 e t0 = Val (travel_dir t0 true (cubic_d NR s c1 c2 e t0 2)).
+Proof.
+  intros H1 H2. unfold cubic_unit_tangent. rewrite H1, bezier_unit_tangent_singular_rep.
+  unfold unit_tangent_fallback_repaired. cbn [first_dir]. rewrite (ceqb_R_false H2).
+  f_equal. apply (travel_dir_unit t0 true).
+Qed.
+Lemma cubic_repaired_k2 s c1 c2 e t0 :
+  cubic_d NR s c1 c2 e t0 1 = (0, 0) -> cubic_d NR s c1 c2 e t0 2 = (0, 0) ->
+  cubic_d NR s c1 c2 e t0 3 <> (0, 0) ->
+  cubic_unit_tangent NR TR true s c1 c2 e t0 = Val (unit_of NR TR (cubic_d NR s c1 c2 e t0 3)).
+Proof.
+  intros H1 H2 H3. unfold cubic_unit_tangent. rewrite H1, bezier_unit_tangent_singular_rep.
+  unfold unit_tangent_fallback_repaired. cbn [first_dir]. rewrite H2, (ceqb_R_true (eq_refl _)).
+  rewrite (ceqb_R_false H3). cbn [Nat.even]. rewrite andb_false_r. reflexivity.
+Qed.
+Lemma quad_repaired_k1 s c e t0 :
+  quad_d NR s c e t0 1 = (0, 0) -> quad_d NR s c e t0 2 <> (0, 0) ->
+  quad_unit_tangent NR TR true s c e t0 = Val (travel_dir t0 true (quad_d NR s c e t0 2)).
+Proof.
+  intros H1 H2. unfold quad_unit_tangent. rewrite H1, bezier_unit_tangent_singular_rep.
+  unfold unit_tangent_fallback_repaired. cbn [first_dir]. rewrite (ceqb_R_false H2).
+  f_equal. apply (travel_dir_unit t0 true).
+Qed.
+(* a curve whose higher derivatives all vanish there (all control points equal): ValueError *)
+Lemma cubic_repaired_degenerate s c1 c2 e t0 :
+  cubic_d NR s c1 c2 e t0 1 = (0, 0) -> cubic_d NR s c1 c2 e t0 2 = (0, 0) ->
+  cubic_d NR s c1 c2 e t0 3 = (0, 0) ->
+  cubic_unit_tangent NR TR true s c1 c2 e t0 = ErrValue.
+Proof.
+  intros H1 H2 H3. unfold cubic_unit_tangent. rewrite H1, bezier_unit_tangent_singular_rep.
+  unfold unit_tangent_fallback_repaired. cbn [first_dir]. rewrite H2, H3, (ceqb_R_true (eq_refl _)).
+  reflexivity.
 Qed.
 
 (* ================= the limit of the quotient d/|d| from one side ================= *)
